@@ -2,7 +2,8 @@
   Dirk.Props.KernelsEq — the decision kernels, as translated mechanically from /repo's current Go source
   by /verif/factx (Dirk/Gen/Kernels.lean, regenerated on every run), are extensionally EQUAL to the hand-written
   model functions of Dirk/Model/Rules.lean (§1–3), Dirk/Model/Checker.lean (§4–5), Dirk/Model/Dkg.lean (§6–7, §9–11),
-  Dirk/Model/Scatter.lean (§8), Dirk/Model/Crashes.lean (§12) and Dirk/Model/Import.lean (§13), for all inputs.
+  Dirk/Model/Scatter.lean (§8), Dirk/Model/Crashes.lean (§12), Dirk/Model/Import.lean (§13) and Dirk/Model/Instance.lean
+  (§14: the signer's batch signing loop, with the loop bound that Model/ShortRules.lean rests on), for all inputs.
 
   A semantic edit of a Go kernel changes the regenerated definition and one of these theorems stops building;
   a Go construct outside the translator's fragment replaces the definition by `kernelUntranslatable_…`, and this
@@ -14,6 +15,8 @@ import Dirk.Model.Dkg
 import Dirk.Model.Scatter
 import Dirk.Model.Crashes
 import Dirk.Model.Import
+import Dirk.Model.Instance
+import Dirk.Gen.Facts
 import Dirk.Gen.Kernels
 
 namespace Dirk
@@ -716,5 +719,179 @@ example : Gen.importStartGen (some (1, 2, 3)) (some (4, 5, 6)) = (1, 2, 3) ∧
     Gen.importStartGen none (some (4, 5, 6)) = (4, 5, 6) ∧
     Gen.importStartGen none none = (-1, -1, -1) ∧
     importStart none none = {} ∧ importStart none (some ⟨10, 2, 3⟩) = ⟨10, 2, 3⟩ := by decide
+
+/-! ## 14. the "Carry out the signing" loop of `SignBeaconAttestations` / `Multisign` ↔ `signEvs` / `signGenerics`
+
+  The generated position functions speak in enumerator VALUES (`rules.Result` in, `core.Result` out), computed by the
+  translator from the two iota blocks.  `verdictCode` / `resCode` are the model's reading of those values; they are
+  proved to be the regenerated ones (`verdictCode_agrees`, `resCode_agrees`), and the enumerator names are the ones the
+  facts file carries (`rulesResultValues_names`, cf. `facts_rules_results` in Props/FactsResults.lean). -/
+
+/-- `rules.Result` enumerator value of a model verdict -/
+def verdictCode : Verdict → Nat
+  | .unknown => 0 | .approved => 1 | .denied => 2 | .failed => 3
+
+/-- `core.Result` enumerator value of a model result -/
+def resCode : Res → Nat
+  | .unknown => 0 | .succeeded => 1 | .denied => 2 | .failed => 3
+
+/-- decoding of a `core.Result` value (`none`: not an enumerator) -/
+def resOfCode : Nat → Option Res
+  | 0 => some .unknown | 1 => some .succeeded | 2 => some .denied | 3 => some .failed | _ => none
+
+theorem resOfCode_resCode (r : Res) : resOfCode (resCode r) = some r := by cases r <;> rfl
+
+theorem resCode_of_resOfCode (n : Nat) (r : Res) (h : resOfCode n = some r) : resCode r = n := by
+  unfold resOfCode at h
+  split at h <;> simp at h <;> subst h <;> rfl
+
+/-- the encoding of verdicts is the regenerated iota block of `rules.Result` (rules/service.go) … -/
+theorem verdictCode_agrees :
+    Gen.rulesResultValuesGen = [("UNKNOWN", verdictCode .unknown), ("APPROVED", verdictCode .approved),
+      ("DENIED", verdictCode .denied), ("FAILED", verdictCode .failed)] := by decide
+
+/-- … whose names are exactly the enumerators the facts file lists (what `facts_rules_results` is about) -/
+theorem rulesResultValues_names : Gen.rulesResultValuesGen.map (·.1) = Gen.rulesResults := by decide
+
+/-- the decoding of results is the regenerated iota block of `core.Result` (core/result.go) -/
+theorem resCode_agrees :
+    Gen.coreResultValuesGen = [("ResultUnknown", resCode .unknown), ("ResultSucceeded", resCode .succeeded),
+      ("ResultDenied", resCode .denied), ("ResultFailed", resCode .failed)] := by decide
+
+/-- One step of `signEvs` is the generated position function of `SignBeaconAttestations`.
+    The model folds the failure of `attestation.HashTreeRoot()` and of `generateSigningRoot` into
+    `d.signingRoot = none` (Model/Instance.lean: `AttData.signingRoot`), so ANY split of that into the two generated
+    inputs `rootErr`, `signingRootErr` will do; `signErr` is `signFails.contains i`.  The position's result is the
+    decoding of the generated value, the root (and the released entry) is there exactly when the generated function
+    says `signatures[i]` is assigned. -/
+theorem signLoopPosAtt_eq_gen (sf : List Nat) (i : Nat) (k : Bytes) (d : AttData) (v : Verdict)
+    (rootErr signingRootErr : Bool) (h : (rootErr || signingRootErr) = d.signingRoot.isNone) :
+    ∃ r, resOfCode (Gen.signLoopPosAttGen (verdictCode v) rootErr signingRootErr (sf.contains i)).1 = some r ∧
+      signEvs sf i [(k, d, v)] =
+        [(⟨r, if (Gen.signLoopPosAttGen (verdictCode v) rootErr signingRootErr (sf.contains i)).2
+               then d.signingRoot else none⟩,
+          if (Gen.signLoopPosAttGen (verdictCode v) rootErr signingRootErr (sf.contains i)).2
+          then some (k, d) else none)] := by
+  simp only [signEvs]
+  generalize sf.contains i = c
+  cases hr : d.signingRoot <;> cases c <;> cases v <;> cases rootErr <;> cases signingRootErr <;>
+    simp [hr] at h <;>
+    simp [Gen.signLoopPosAttGen, verdictCode, resOfCode, verdictRes]
+
+/-- the form asked for: `rootErr := d.signingRoot.isNone`, `signingRootErr := false`; result and `root.isSome` of the
+    one position `signEvs` produces -/
+theorem signLoopPosAtt_eq_gen' (sf : List Nat) (i : Nat) (k : Bytes) (d : AttData) (v : Verdict) :
+    (signEvs sf i [(k, d, v)]).map (fun o => (resCode o.1.res, o.1.root.isSome, o.2.isSome)) =
+      [((Gen.signLoopPosAttGen (verdictCode v) d.signingRoot.isNone false (sf.contains i)).1,
+        (Gen.signLoopPosAttGen (verdictCode v) d.signingRoot.isNone false (sf.contains i)).2,
+        (Gen.signLoopPosAttGen (verdictCode v) d.signingRoot.isNone false (sf.contains i)).2)] := by
+  obtain ⟨r, hr, he⟩ := signLoopPosAtt_eq_gen sf i k d v d.signingRoot.isNone false (by simp)
+  rw [he]
+  simp only [List.map_cons, List.map_nil, resCode_of_resOfCode _ _ hr]
+  generalize sf.contains i = c
+  cases hs : d.signingRoot <;> cases c <;> cases v <;>
+    simp [Gen.signLoopPosAttGen, verdictCode]
+
+/-- One step of `signGenerics` is the generated position function of `Multisign`; the verdict is `onSign`'s
+    (the single rule the model's ruler runs for a generic signature), `signingRootErr` is `d.signingRoot = none`. -/
+theorem signLoopPosMulti_eq_gen (adminIPs : List String) (ip : String) (sf : List Nat) (i : Nat) (k : Bytes)
+    (d : SignData) :
+    ∃ r, resOfCode (Gen.signLoopPosMultiGen (verdictCode (onSign adminIPs ip (d.domain.getD [])))
+            d.signingRoot.isNone (sf.contains i)).1 = some r ∧
+      signGenerics adminIPs ip sf i [(k, d)] =
+        [(⟨r, if (Gen.signLoopPosMultiGen (verdictCode (onSign adminIPs ip (d.domain.getD [])))
+                   d.signingRoot.isNone (sf.contains i)).2 then d.signingRoot else none⟩,
+          if (Gen.signLoopPosMultiGen (verdictCode (onSign adminIPs ip (d.domain.getD [])))
+                   d.signingRoot.isNone (sf.contains i)).2 then some (k, d) else none)] := by
+  simp only [signGenerics]
+  generalize sf.contains i = c
+  generalize onSign adminIPs ip (d.domain.getD []) = v
+  cases hr : d.signingRoot <;> cases c <;> cases v <;>
+    simp [Gen.signLoopPosMultiGen, verdictCode, resOfCode, verdictRes]
+
+theorem signLoopPosMulti_eq_gen' (adminIPs : List String) (ip : String) (sf : List Nat) (i : Nat) (k : Bytes)
+    (d : SignData) :
+    (signGenerics adminIPs ip sf i [(k, d)]).map (fun o => (resCode o.1.res, o.1.root.isSome, o.2.isSome)) =
+      [((Gen.signLoopPosMultiGen (verdictCode (onSign adminIPs ip (d.domain.getD []))) d.signingRoot.isNone (sf.contains i)).1,
+        (Gen.signLoopPosMultiGen (verdictCode (onSign adminIPs ip (d.domain.getD []))) d.signingRoot.isNone (sf.contains i)).2,
+        (Gen.signLoopPosMultiGen (verdictCode (onSign adminIPs ip (d.domain.getD []))) d.signingRoot.isNone (sf.contains i)).2)] := by
+  obtain ⟨r, hr, he⟩ := signLoopPosMulti_eq_gen adminIPs ip sf i k d
+  rw [he]
+  simp only [List.map_cons, List.map_nil, resCode_of_resOfCode _ _ hr]
+  generalize sf.contains i = c
+  generalize onSign adminIPs ip (d.domain.getD []) = v
+  cases hs : d.signingRoot <;> cases c <;> cases v <;>
+    simp [Gen.signLoopPosMultiGen, verdictCode]
+
+/-- the position the model builds from what the generated function returns -/
+def posOfGen (g : Nat × Bool) (root : Option Bytes) : Pos := ⟨(resOfCode g.1).getD .unknown, if g.2 then root else none⟩
+
+/-- the whole signing pass over a verdict list is the indexed map of the generated position function -/
+theorem signEvs_eq_gen_map (sf : List Nat) (i : Nat) (evs : List (Bytes × AttData × Verdict)) :
+    signEvs sf i evs = (evs.zipIdx i).map (fun e =>
+      (posOfGen (Gen.signLoopPosAttGen (verdictCode e.1.2.2) e.1.2.1.signingRoot.isNone false (sf.contains e.2))
+          e.1.2.1.signingRoot,
+       if (Gen.signLoopPosAttGen (verdictCode e.1.2.2) e.1.2.1.signingRoot.isNone false (sf.contains e.2)).2
+       then some (e.1.1, e.1.2.1) else none)) := by
+  induction evs generalizing i with
+  | nil => simp [signEvs]
+  | cons e rest ih =>
+    obtain ⟨k, d, v⟩ := e
+    obtain ⟨r, hr, he⟩ := signLoopPosAtt_eq_gen sf i k d v d.signingRoot.isNone false (by simp)
+    have hcons : signEvs sf i ((k, d, v) :: rest) = signEvs sf i [(k, d, v)] ++ signEvs sf (i + 1) rest := by
+      simp [signEvs]
+    rw [hcons, he, ih (i + 1)]
+    simp only [List.zipIdx_cons, List.map_cons, posOfGen, hr, Option.getD_some, List.cons_append, List.nil_append]
+
+theorem signGenerics_eq_gen_map (adminIPs : List String) (ip : String) (sf : List Nat) (i : Nat)
+    (keyed : List (Bytes × SignData)) :
+    signGenerics adminIPs ip sf i keyed = (keyed.zipIdx i).map (fun e =>
+      (posOfGen (Gen.signLoopPosMultiGen (verdictCode (onSign adminIPs ip (e.1.2.domain.getD [])))
+          e.1.2.signingRoot.isNone (sf.contains e.2)) e.1.2.signingRoot,
+       if (Gen.signLoopPosMultiGen (verdictCode (onSign adminIPs ip (e.1.2.domain.getD [])))
+          e.1.2.signingRoot.isNone (sf.contains e.2)).2 then some (e.1.1, e.1.2) else none)) := by
+  induction keyed generalizing i with
+  | nil => simp [signGenerics]
+  | cons e rest ih =>
+    obtain ⟨k, d⟩ := e
+    obtain ⟨r, hr, he⟩ := signLoopPosMulti_eq_gen adminIPs ip sf i k d
+    have hcons : signGenerics adminIPs ip sf i ((k, d) :: rest) =
+        signGenerics adminIPs ip sf i [(k, d)] ++ signGenerics adminIPs ip sf (i + 1) rest := by
+      simp [signGenerics]
+    rw [hcons, he, ih (i + 1)]
+    simp only [List.zipIdx_cons, List.map_cons, posOfGen, hr, Option.getD_some, List.cons_append, List.nil_append]
+
+/-- The regenerated loop bound.  Both signing loops are `util.Scatter(len(rulesResults), func(offset, entries, _) { for i :=
+    offset; i < offset+entries; i++ { switch rulesResults[i] … } })` with `rulesResults` the ruler's answer; `results` is
+    `make([]core.Result, len(data))` filled with ResultUnknown (which is also the type's zero value), `signatures` is
+    `make([][]byte, len(data))` (nil entries).  So exactly the first `len(rulesResults)` positions are visited and the others
+    keep UNKNOWN / no signature: the `take k` and `padUnknown` of Model/ShortRules.lean (`finishKeyedShort`,
+    `multisignShort`). -/
+theorem signLoopBound_is_rules_results :
+    Gen.signLoopBoundAttGen = "len(rulesResults)" ∧ Gen.signLoopBoundMultiGen = "len(rulesResults)" ∧
+    Gen.signLoopIndexAttGen = "i := offset; i < offset+entries; i++" ∧
+    Gen.signLoopIndexMultiGen = "i := offset; i < offset+entries; i++" ∧
+    Gen.signLoopSwitchTagAttGen = "rulesResults[i]" ∧ Gen.signLoopSwitchTagMultiGen = "rulesResults[i]" ∧
+    Gen.signLoopVerdictsAttGen =
+      "rulesResults := s.ruler.RunRules(ctx, credentials, ruler.ActionSignBeaconAttestation, rulesData)" ∧
+    Gen.signLoopVerdictsMultiGen = "rulesResults := s.ruler.RunRules(ctx, credentials, ruler.ActionSign, rulesData)" ∧
+    Gen.signLoopInitAttGen = "results := make([]core.Result, len(data))" ∧
+    Gen.signLoopInitMultiGen = "results := make([]core.Result, len(data))" ∧
+    Gen.signLoopInitFillAttGen = ["for i := range results { results[i] = core.ResultUnknown }"] ∧
+    Gen.signLoopInitFillMultiGen = ["for i := range results { results[i] = core.ResultUnknown }"] ∧
+    Gen.signLoopSigInitAttGen = "signatures := make([][]byte, len(data))" ∧
+    Gen.signLoopSigInitMultiGen = "signatures := make([][]byte, len(data))" ∧
+    Gen.coreResultZeroIsUnknownGen = true := by decide
+
+/-- read off the translated code: verdict values 0..3 = UNKNOWN, APPROVED, DENIED, FAILED; results 1 = SUCCEEDED,
+    2 = DENIED, 3 = FAILED.  (A value no arm names — 4, say — falls out of the switch into the signing code, as in Go:
+    the generated function shows it; that no such enumerator exists is `facts_rules_results` /
+    `facts_result_switches_total` in Props/FactsResults.lean, not asserted here.) -/
+example : Gen.signLoopPosAttGen 1 false false false = (1, true) ∧ Gen.signLoopPosAttGen 1 true false false = (3, false) ∧
+    Gen.signLoopPosAttGen 1 false true false = (3, false) ∧ Gen.signLoopPosAttGen 1 false false true = (3, false) ∧
+    Gen.signLoopPosAttGen 0 false false false = (3, false) ∧ Gen.signLoopPosAttGen 2 false false false = (2, false) ∧
+    Gen.signLoopPosAttGen 3 false false false = (3, false) ∧
+    Gen.signLoopPosMultiGen 1 false false = (1, true) ∧ Gen.signLoopPosMultiGen 1 false true = (3, false) ∧
+    Gen.signLoopPosMultiGen 1 true false = (3, false) ∧ Gen.signLoopPosMultiGen 2 false false = (2, false) := by decide
 
 end Dirk
